@@ -103,7 +103,31 @@ def parse(text):
 
 
 def dump(recs):
-    return "\n".join(r.text() for r in recs) + "\n"
+    """Text of the records. A generated TER record is written in one of the three forms found in
+    real files - bare "TER", padded to the record name, or the full form with serial and residue -
+    chosen by its position (deterministic, so a replay sees the same text)."""
+    out = []
+    k = len(recs)
+    prev = None
+    for r in recs:
+        if r.raw is not None and r.raw.strip() == "TER":
+            form = k % 3
+            k += 1
+            if form == 0:
+                out.append("TER")
+            elif form == 1 or prev is None:
+                out.append("TER   ")
+            else:
+                try:
+                    ser = "%5d" % (int(prev.serial) + 1)
+                except ValueError:
+                    ser = "     "
+                out.append(("TER   %s      %3s %s%4d%s" % (ser, prev.resn, prev.chain, prev.resnum, prev.icode)).ljust(80))
+            continue
+        if r.raw is None:
+            prev = r
+        out.append(r.text())
+    return "\n".join(out) + "\n"
 
 
 def load(path):
